@@ -132,6 +132,10 @@ fn node(name: &str, ty: &str, kids: Vec<XN>, permutable: bool) -> XN {
     XN::Node { name: name.into(), prefix: None, attrs: vec![("type".into(), ty.into())], kids, permutable }
 }
 fn dt(name: &str, d: &DT, lex: &mut Lex) -> XN {
+    // isAtomicClockReferenced is optional (default 0)
+    if !d.atomic && lex.flag(3) {
+        return node(name, "Structure", vec![num_f("dateTimeValue", d.gps, lex)], true);
+    }
     node(name, "Structure", vec![num_f("dateTimeValue", d.gps, lex), num_i("isAtomicClockReferenced", d.atomic as i64)], true)
 }
 fn pose(name: &str, p: &Pose, lex: &mut Lex) -> XN {
@@ -618,8 +622,19 @@ impl<'a, 'b> W<'a, 'b> {
                         // mixed: first half escaped text, second half CDATA
                         let cut = text.char_indices().nth(text.chars().count() / 2).map(|(i, _)| i).unwrap_or(0);
                         let t = esc_text(&text[..cut], self.lex);
+                        let junk = if self.lex.flag(3) { ["<!--c-->", "<?pi x?>"][self.lex.pick(2)] } else { "" };
+                        let where_ = self.lex.pick(3);
+                        if where_ == 0 {
+                            self.out.push_str(junk);
+                        }
                         self.out.push_str(&t);
+                        if where_ == 1 {
+                            self.out.push_str(junk);
+                        }
                         self.out.push_str(&cdata(&text[cut..]));
+                        if where_ == 2 {
+                            self.out.push_str(junk);
+                        }
                     }
                 }
                 self.end(&q);
@@ -650,7 +665,18 @@ impl<'a, 'b> W<'a, 'b> {
                             self.out.push_str(&format!("&#{};", c as u32));
                         }
                     }
-                    _ => self.out.push_str(text),
+                    _ => {
+                        // white space around a number is not part of its value; comments and processing
+                        // instructions may sit anywhere in character data
+                        let pad = if self.lex.flag(9) { ["", " ", "\n  ", "\t"][self.lex.pick(4)] } else { "" };
+                        let junk = if self.lex.flag(11) { ["<!--c-->", "<?pi x?>", "<!-- 1 -->"][self.lex.pick(3)] } else { "" };
+                        let at = if junk.is_empty() { 0 } else { self.lex.pick(text.len() + 1) };
+                        self.out.push_str(pad);
+                        self.out.push_str(&text[..at]);
+                        self.out.push_str(junk);
+                        self.out.push_str(&text[at..]);
+                        self.out.push_str(pad);
+                    }
                 }
                 self.end(&q);
             }
